@@ -1,6 +1,6 @@
 #!/usr/bin/env python3
 """Prints the markdown table of DESIGN.md section 0.7 from /verif/seeded/*/meta.json."""
-import json, glob, os
+import json, glob, os, re
 rows = []
 for f in sorted(glob.glob('/verif/seeded/*/meta.json')):
     m = json.load(open(f))
@@ -11,7 +11,7 @@ for f in sorted(glob.glob('/verif/seeded/*/meta.json')):
     names = []
     for b in (last['by'] if last and last['caught'] else []):
         if b.startswith('obligation '):
-            b = 'contract of ' + b[len('obligation '):].split('/')[0]
+            b = 'contract of ' + re.split(r'/(?:pre|post|safety|inv-|frame|variant|cover|canary|overflow|unbound|outside|lemma)', b[len('obligation '):])[0].split('/')[-1]
         if b not in names:
             names.append(b)
     by = ', '.join(names)
